@@ -27,6 +27,8 @@ def oracle(req, impl, build):
 
 
 def extra(binary, build, tier, rng):
+    if build != "dev" and tier == "quick":
+        return          # the exhaustive / statistical searches run once per quick check (dev profile)
     from .enum_oracle import run_enum
     top = 5 if tier == "quick" else 6
     specs = [("multi", n, k, 60, n - k) for n in range(1, top + 1) for k in range(1, n) if n - k <= 3]
